@@ -14,6 +14,7 @@ import Abmarl.Model.SpacesDriver
 import Abmarl.Model.AttacksDriver
 import Abmarl.Model.SuperDriver
 import Abmarl.Model.CommDriver
+import Abmarl.Model.MemberDriver
 /-! Line-protocol driver: one request per line on stdin, one reply per line on stdout. -/
 open Abmarl
 
@@ -48,6 +49,7 @@ def dispatch (line : String) : String :=
       | "super" => SuperDriver.handle args
       | "supermgr" => SuperDriver.handleMgr args
       | "comm" => CommDriver.handle args
+      | "gmember" => MemberDriver.handle args
       | "ping" => some (.list (.atom "pong" :: args))
       | _ => none
     match r with
